@@ -81,6 +81,7 @@ func init() {
 	register("C10", "other", checkC10)
 	register("C13", "proof", checkC13)
 	register("C05", "other", checkC05)
+	register("C04", "other", checkC04)
 	register("C02", "other", checkC02)
 	register("C03", "other", checkC03)
 	register("C06", "other", checkC06)
